@@ -386,6 +386,7 @@ def rule_init_complete(ctx, fl):
             'is written by myth_mutex_init_body (an object placed in recycled memory must not depend on its previous contents)')
     vi = ctx.view(NATIVE, roots=['myth_mutex_init_body', 'myth_mutex_lock_body', 'myth_mutex_trylock_body', 'myth_mutex_unlock_body'], stops=('myth_queue_push', 'myth_queue_pop', 'myth_yield_ex_body', 'hr_gettime', 'fprintf', 'exit') + lib.SPIN_STOPS, flavour=fl)
     n = lib.init_covers(ctx, 'C04.6', vi, 'myth_mutex_init_body', ['myth_mutex_lock_body', 'myth_mutex_trylock_body', 'myth_mutex_unlock_body'], 'mutex')
+    lib.sleep_container_init_complete(ctx, 'C04.6', fl, 'queue')
     ctx.ob('C04.6', 'fields read by the operations enumerated', n >= 2, 'read set of the operations', loc='src/myth_sync_func.h', detail=str(n))
     ctx.floor('C04.6', 4)
 
@@ -419,6 +420,8 @@ def run(ctx):
 
 SYNC = 'src/myth_sync_func.h'
 MUTANTS = [
+    {'name': 'sleep queue initialiser leaves the tail unset (seed3 C04/m3)', 'expect': 'C04.6',
+     'edits': [('src/myth_sleep_queue_func.h', "  q->head = q->tail = 0;", "  q->head = 0;")]},
     {'name': 'native myth_mutex_trylock forwards to the blocking lock', 'expect': 'C04.8',
      'edits': [('src/myth_if_native.c', "  return myth_mutex_trylock_body(mutex);", "  return myth_mutex_lock_body(mutex);")]},
     {'name': 'sleep queue enq keeps the old tail (sweep M0499)', 'expect': 'C04.5',
